@@ -31,8 +31,11 @@ use domain::net::server::service::{Service, ServiceResult};
 use domain::base::message_builder::AdditionalBuilder;
 use domain::rdata::tsig::Time48;
 use domain::tsig::{Algorithm, ClientSequence, Key, KeyName, ServerSequence};
+use domain::net::client::request::{Error as CErr, RequestMessage, RequestMessageMulti, SendRequestMulti};
+use domain::net::client::stream as cstream;
 use dv_harness::*;
 use futures_util::StreamExt;
+use tokio::io::{AsyncReadExt, AsyncWriteExt};
 use std::future::{ready, Future, Ready};
 use std::ops::ControlFlow;
 use std::pin::Pin;
@@ -595,7 +598,7 @@ fn package(r: &mut Rng, qtype: u16, chunks: Vec<Vec<AR>>) -> Vec<AMsg> {
     chunks.into_iter().enumerate().map(|(i, c)| AMsg::good(i == 0, r.chance(1, 2), qtype, c)).collect()
 }
 
-struct Ctx<'a> { force_place: Option<u64>, wrapped: bool, wrap_cases: u64, sender_msgs: u64, sender_multi: u64, fails: BTreeMap<String, u64>, uni: &'a Uni, rt: &'a tokio::runtime::Runtime, out: &'a mut Out, ttl_kind: bool, lone_soa: u64, undetected: BTreeMap<String, u64>, diffs: u64 }
+struct Ctx<'a> { client_skipped: u64, good_histories: u64, force_place: Option<u64>, wrapped: bool, wrap_cases: u64, sender_msgs: u64, sender_multi: u64, fails: BTreeMap<String, u64>, uni: &'a Uni, rt: &'a tokio::runtime::Runtime, out: &'a mut Out, ttl_kind: bool, lone_soa: u64, undetected: BTreeMap<String, u64>, diffs: u64 }
 
 impl<'a> Ctx<'a> {
     fn place(&mut self, kind: u64, ids: &[u32]) {
@@ -630,6 +633,7 @@ fn run_stream(cx: &mut Ctx, label: &str, msgs: &[AMsg], comp: u8, z0: &Version, 
     if t2 { cx.out.case(&case, &format!("{} {}", upd_txt, st_str(&run.st)), msgs.len() > 0 && msgs[0].recs.len() + msgs.len() > 2, kind); }
     else { cx.out.oracle_case(&case, true, kind); }
     cx.chk(run.st != St::Panic, "panic_xfr", &case, label);
+    if t2 { client_case(cx, msgs, &wire); }
     let zone = build_zone(uni, if z0_has_soa { Some(z0.soa) } else { None }, &z0.keys);
     let ap = apply_updates(uni, cx.rt, &zone, &run.upds);
     let mut z0abs: Vec<AR> = z0.keys.iter().map(|k| AR::Other(*k)).collect();
@@ -654,7 +658,35 @@ fn run_stream(cx: &mut Ctx, label: &str, msgs: &[AMsg], comp: u8, z0: &Version, 
         if let Some(ops) = ops {
             if !ap.diff_txts.is_empty() {
                 let dfcase = format!("df {} {}", if pubw.is_empty() { "-".to_string() } else { pubw.join(",") }, ops.join(","));
-                cx.out.case(&dfcase, &ap.diff_txts.join(" "), ap.diff_txts.iter().any(|d| d != "none"), "df");
+                // histories outside the known defect classes (the model proves the diff applies for them):
+                // one batch, no DeleteAllRecords, published TTLs kept, only published-and-present records
+                // deleted, only neither-published-nor-present records added
+                let kdt = |w: &str| -> (u32, u32, u32) { let v: Vec<u32> = w.split('.').map(|x| x.parse().unwrap()).collect(); (v[0], v[1], v[2]) };
+                let mut pubm: BTreeMap<u32, (u32, BTreeSet<u32>)> = BTreeMap::new();
+                for w in &pubw { let (k, d, t) = kdt(w); let e = pubm.entry(k).or_insert((t, BTreeSet::new())); e.1.insert(d); }
+                let mut work: BTreeMap<u32, BTreeSet<u32>> = pubm.iter().map(|(k, v)| (*k, v.1.clone())).collect();
+                let body: &[String] = if ops.first().map(|o| o == "BD").unwrap_or(false) { &ops[1..] } else { &ops[..] };
+                let mut good = z0_has_soa && body.last().map(|o| o.starts_with("F:")).unwrap_or(false);
+                if good {
+                    for o in &body[..body.len() - 1] {
+                        let (op, arg) = match o.split_once(':') { Some(x) => x, None => { good = false; break; } };
+                        if op == "BA" { continue; }
+                        if op != "A" && op != "D" { good = false; break; }
+                        let (k, d, t) = kdt(arg);
+                        let in_pub = pubm.get(&k).map_or(false, |p| p.1.contains(&d));
+                        let ttl_ok = pubm.get(&k).map_or(true, |p| p.0 == t);
+                        let w = work.entry(k).or_default();
+                        let ok = k != 0 && ttl_ok && if op == "A" { !in_pub && w.insert(d) } else { in_pub && w.remove(&d) };
+                        if !ok { good = false; break; }
+                    }
+                }
+                let suffix = if good {
+                    let applies = ap.diff_bad.is_empty();
+                    cx.chk(applies, "diff_good_history_wrong", &dfcase, "the diff does not apply although the history is outside the known defect classes");
+                    format!(" good=1 applies={}", applies as u8)
+                } else { " good=0".to_string() };
+                cx.good_histories += good as u64;
+                cx.out.case(&dfcase, &format!("{}{}", ap.diff_txts.join(" "), suffix), ap.diff_txts.iter().any(|d| d != "none"), "df");
             }
         }
     }
@@ -756,6 +788,71 @@ fn abort_case(cx: &mut Ctx, r: &mut Rng, chain: &[Version], other: Option<&Versi
             "aborted_transfer_leaks_into_next", &case,
             &format!("after abort at update {} and a complete IXFR {}->{} readers see {:?}", p, vis.soa, target.soa, a2.final_content));
         for (cls, d) in a1.diff_bad.iter().chain(a2.diff_bad.iter()) { cx.chk(false, cls, &case, d); }
+    }
+}
+
+// ---------------------------------------------------------------- the stream client (end-of-transfer detection)
+
+/// Feeds the messages to the real stream transport (net/client/stream.rs) over an in-memory
+/// duplex pipe and records what the requester gets: `m` a message, `w` WrongReplyForQuery,
+/// `E` end of stream, `C` the connection was closed (by us, after the last message) first.
+fn client_case(cx: &mut Ctx, msgs: &[AMsg], wire: &[Vec<u8>]) {
+    let Some(q) = msgs.first().and_then(|m| m.qtype) else { return };
+    if q != 252 && q != 251 { return; }
+    // the model covers streams that answer the request with NOERROR
+    // (and whose QDCOUNT matches the questions present: the record iterator would misparse otherwise)
+    if !msgs[0].qr || msgs[0].qd != 1 || msgs.iter().any(|m| m.rcode != 0 || m.qd != m.qtype.is_some() as u16) { return; }
+    let uni = cx.uni;
+    let case = format!("cl {} {}", q, msgs.iter().map(|m| m.words()).collect::<Vec<_>>().join(" "));
+    cx.out.begin(&case);
+    let rt = cx.rt;
+    let wire: Vec<Vec<u8>> = wire.to_vec();
+    let res = catch_mut(|| rt.block_on(async {
+        let (cli_io, mut srv_io) = tokio::io::duplex(1 << 22);
+        let (conn, transport) = cstream::Connection::<RequestMessage<Vec<u8>>, RequestMessageMulti<Vec<u8>>>::new(cli_io);
+        let th = tokio::spawn(transport.run());
+        let mut qb = MessageBuilder::new_vec().question();
+        qb.push((uni.apex.clone(), Rtype::from_int(q), Class::IN)).unwrap();
+        let req = RequestMessageMulti::new(qb.into_message()).map_err(|e| e.to_string())?;
+        let mut get = SendRequestMulti::send_request(&conn, req);
+        // our side of the pipe: read the request, answer with its ID, close
+        let srv = async {
+            let mut len = [0u8; 2];
+            srv_io.read_exact(&mut len).await.map_err(|e| e.to_string())?;
+            let mut buf = vec![0u8; u16::from_be_bytes(len) as usize];
+            srv_io.read_exact(&mut buf).await.map_err(|e| e.to_string())?;
+            for w in &wire {
+                let mut w = w.clone();
+                w[0] = buf[0]; w[1] = buf[1];
+                srv_io.write_all(&(w.len() as u16).to_be_bytes()).await.map_err(|e| e.to_string())?;
+                srv_io.write_all(&w).await.map_err(|e| e.to_string())?;
+            }
+            srv_io.shutdown().await.map_err(|e| e.to_string())?;
+            drop(srv_io);
+            Ok::<(), String>(())
+        };
+        let cli = async {
+            let mut obs = String::new();
+            loop {
+                match get.get_response().await {
+                    Ok(Some(_)) => obs.push('m'),
+                    Ok(None) => { obs.push('E'); break; }
+                    Err(CErr::WrongReplyForQuery) => obs.push('w'),
+                    Err(_) => { obs.push('C'); break; }
+                }
+                if obs.len() > wire.len() + 2 { obs.push('?'); break; }
+            }
+            obs
+        };
+        let (s, obs) = tokio::join!(srv, cli);
+        s?;
+        th.abort();
+        Ok::<String, String>(obs)
+    }));
+    match res {
+        Ok(Ok(obs)) => cx.out.case(&case, &obs, msgs.len() > 1, "cl"),
+        Ok(Err(e)) => { cx.client_skipped += 1; let _ = e; }
+        Err(_) => { cx.chk(false, "panic_xfr", &case, "the stream client panicked"); }
     }
 }
 
@@ -867,6 +964,29 @@ fn sender_case(cx: &mut Ctx, chain: &[Version], mode: u8, compat: bool, recv_sta
     let upd_txt = if run.upds.is_empty() { "-".to_string() } else { run.upds.iter().map(|u| u.1.clone()).collect::<Vec<_>>().join(",") };
     let case = match &words { Some(w) => format!("x {}", w.join(" ")), None => case0.clone() };
     if words.is_some() { cx.out.case(&case, &format!("{} {}", upd_txt, st_str(&run.st)), true, "sender"); } else { cx.out.oracle_case(&case, true, "sender"); }
+    // the record order the sender chose (runs of non-SOA records sorted: walk and hash-map order
+    // are not part of the contract) against the model's sender functions
+    if words.is_some() && run.st != St::Panic {
+        let mut seq: Vec<String> = vec![]; let mut cur: Vec<String> = vec![];
+        let mut ok = true;
+        for w in &wire {
+            let Ok(m) = Message::from_octets(Bytes::from(w.clone())) else { ok = false; break };
+            let Ok(ans) = m.answer() else { ok = false; break };
+            for r in ans.limit_to::<ZoneRecordData<Bytes, domain::base::ParsedName<Bytes>>>() {
+                match r.map(|r| uni.abs_parsed(&r)) {
+                    Ok(AR::Soa(s)) => { cur.sort(); seq.append(&mut cur); seq.push(format!("S{}", s)); }
+                    Ok(AR::Other(k)) => cur.push(format!("O{:06}", k)),
+                    Err(_) => ok = false,
+                }
+            }
+        }
+        cur.sort(); seq.append(&mut cur);
+        if ok {
+            let vstr = |v: &Version| format!("{}:{}", v.soa, if v.keys.is_empty() { "-".to_string() } else { v.keys.iter().map(|k| k.to_string()).collect::<Vec<_>>().join(".") });
+            let sq = if mode == 1 { format!("sq i {}", chain.iter().map(vstr).collect::<Vec<_>>().join(";")) } else { format!("sq a {}", vstr(&new)) };
+            cx.out.case(&sq, &seq.join("."), true, "sq");
+        }
+    }
     cx.sender_msgs += wire.len() as u64;
     if wire.len() > 1 { cx.sender_multi += 1; }
     cx.chk(run.st != St::Panic, "panic_xfr", &case, &label);
@@ -1164,7 +1284,7 @@ fn main() {
     let mut r = Rng::new(a.seed);
     let uni = Uni::new();
     let rt = tokio::runtime::Builder::new_current_thread().enable_all().build().unwrap();
-    let mut cx = Ctx { force_place: None, wrapped: false, wrap_cases: 0, sender_msgs: 0, sender_multi: 0, fails: BTreeMap::new(), uni: &uni, rt: &rt, out: &mut out, ttl_kind: false, lone_soa: 0, undetected: BTreeMap::new(), diffs: 0 };
+    let mut cx = Ctx { client_skipped: 0, good_histories: 0, force_place: None, wrapped: false, wrap_cases: 0, sender_msgs: 0, sender_multi: 0, fails: BTreeMap::new(), uni: &uni, rt: &rt, out: &mut out, ttl_kind: false, lone_soa: 0, undetected: BTreeMap::new(), diffs: 0 };
     let ks = |v: &[u32]| -> BTreeSet<u32> { v.iter().cloned().collect() };
 
     // ---- corpus ----
@@ -1458,6 +1578,7 @@ fn main() {
     let und = format!("{{{}}}", cx.undetected.iter().map(|(k, v)| format!("{}: {}", json_str(k), v)).collect::<Vec<_>>().join(","));
     let fc = format!("{{{}}}", cx.fails.iter().map(|(k, v)| format!("{}: {}", json_str(k), v)).collect::<Vec<_>>().join(","));
     let (smsgs, smulti) = (cx.sender_msgs, cx.sender_multi);
-    let wraps = cx.wrap_cases;
-    out.finish(&[("serial_wrap_cases", wraps.to_string()), ("sender_messages", smsgs.to_string()), ("sender_multi_message_streams", smulti.to_string()), ("failures_by_class", fc), ("lone_soa_first_msg", lone.to_string()), ("undetected_by_design", und), ("diffs_checked", diffs.to_string())]);
+    let wraps = cx.wrap_cases; let goods = cx.good_histories;
+    let cskip = cx.client_skipped;
+    out.finish(&[("client_cases_skipped", cskip.to_string()), ("good_diff_histories", goods.to_string()), ("serial_wrap_cases", wraps.to_string()), ("sender_messages", smsgs.to_string()), ("sender_multi_message_streams", smulti.to_string()), ("failures_by_class", fc), ("lone_soa_first_msg", lone.to_string()), ("undetected_by_design", und), ("diffs_checked", diffs.to_string())]);
 }
